@@ -23,7 +23,7 @@ func init() {
 			"R2 (CFG) the loop has a loop-carried integer counter incremented on every back edge and every back edge is dominated by a comparison that depends on that counter and on Context.CommitRetries and has a loop-exit edge; " +
 			"R3 (ESP) RetrySubmit returns nil only right after an attempt that returned nil; " +
 			"R4 (ESP) the workspace is obtained inside the attempt, and every failing return after GetChangeOps succeeded has passed ChangeOps.Destroy; " +
-			"R5 (ESP) VersionControl.Result happens at most once per attempt, only after TryCommit:ok (or under dry-run), and the attempt returns nil only after it; " +
+			"R5 (ESP) VersionControl.Result happens at most once per attempt, only after TryCommit:ok (or under dry-run), and the attempt returns nil only after it — and nothing but nil once TryCommit succeeded; " +
 			"R7 endorse.VirtualFirmware returns nil only where no submission to a configured back end failed. " +
 			"R6b the object the manifest is parsed into is allocated during the attempt (not captured from outside the retry closure, not a parameter fed from outside, not a field or global), so no attempt sees an earlier attempt's manifest. " +
 			"R6 (slice) the manifest bytes parsed in the change function come from ReadFile on the ChangeOps parameter of that invocation (no global / context-stored copy). " +
@@ -227,6 +227,9 @@ func runC14(c *Ctx) {
 		errA := rets[len(rets)-1]
 		if errA != esp.Zero && s.Has(bGotWs) && !s.Has(bDestroyed) {
 			return "R4: attempt may return an error with its workspace not destroyed, state " + st
+		}
+		if errA != esp.Zero && s.Has(bCommitOk) {
+			return "R5: attempt may return an error although its commit succeeded (a commit that landed is reported as a failure: it is never recorded, and a retriable error commits again), state " + st
 		}
 		if errA != esp.NonZero && !s.Has(bResult) {
 			return "R5: attempt may return nil without recording the commit result, state " + st
